@@ -141,6 +141,41 @@ def pshape(t):
     raise ValueError(t)
 
 
+def playout(t, fixed):
+    """the Linear order data_layout claims (None: not Linear / not constructed); fixed=False is
+    today's TensorTranspose::data_layout, fixed=True the demanded one (KNOWN DEFECT D1)"""
+    tag = t[0]
+    if pshape(t) is None:
+        return None
+    if tag == 0:
+        return [n for n, _ in t[2]]
+    if tag == 12:
+        return [t[4], t[5]]
+    if tag in (1, 2, 3, 4, 6, 9, 10):
+        return None
+    order = playout(t[1], fixed)
+    if order is None:
+        return None
+    if tag in (7, 11):
+        return order
+    src = [n for n, _ in pshape(t[1])]
+    if tag == 5:
+        return [t[2][src.index(n)] for n in order]
+    if tag == 8:
+        req = t[2]
+        if fixed:
+            return [src[req.index(n)] for n in order]
+        return [order[req.index(src[d])] for d in range(len(src))]
+    raise ValueError(t)
+
+
+def known_defect(t):
+    """KNOWN DEFECT D1 (notes/C02.md): TensorTranspose over a source whose memory order is not its
+    shape order claims a wrong Linear order.  Exactly the cases where the claimed order differs
+    from the demanded one are excluded."""
+    return playout(t, False) != playout(t, True)
+
+
 def pdims(t):
     """dimensionality the term would have if every constructor succeeded (None: ill-typed)"""
     tag = t[0]
@@ -232,6 +267,8 @@ def case(t, rng, full=True):
     if not well_typed(t):
         return None
     t = renumber(t, [0])
+    if known_defect(t):   # KNOWN DEFECT D1: excluded until /repo is repaired (see notes/C02.md)
+        return None
     sh = pshape(t)
     if sh is None:
         d = pdims(t)
